@@ -319,17 +319,26 @@ Theorem c01_rd_step_errors : forall (p : profile) prev s e,
   (e = EValue /\ ballots p <> [] /\ total_wt cand (ballots p) <= 0) \/ e = EScript.
 Proof. exact (rd_step_errors cand ceqb ceqb_spec). Qed.
 
+(* boosted: the 0/0 probabilities (numpy "probabilities contain NaN") arise from total weight 0 or,
+   for a previous state whose recorded tallies are all zero, from the normaliser of the squares
+   being 0.  A run never passes such a state: see c01_dictator_errors (the failing step is played
+   on a state holding the first-place tallies of its profile) and c17_brd_step_errors_linked *)
 Theorem c01_brd_step_errors : forall (p : profile) prev s e,
   ranked_profile p -> brd_step p prev s = inr e ->
-  (e = EIndex /\ ballots p = []) \/ (e = EValue /\ total_wt cand (ballots p) <= 0) \/ e = EScript.
+  (e = EIndex /\ ballots p = []) \/
+  (e = EValue /\ (total_wt cand (ballots p) <= 0 \/
+                  squares_mass cand (escores prev) (total_wt cand (ballots p)) == 0)) \/
+  e = EScript.
 Proof. exact (brd_step_errors cand ceqb ceqb_spec). Qed.
 
 (* a failed run: ValueError for a seat count out of range, or the error of a round played on some
-   reduced profile cur (valid, over candidates of p) *)
+   reduced profile cur (valid, over candidates of p) from a previous state that holds the
+   first-place tallies of cur *)
 Theorem c01_dictator_errors : forall (boosted : bool) m (p : profile) s e,
   ranked_profile p -> run_dictator boosted m p s = inr e ->
   (e = EValue /\ ~ (1 <= m <= Z.of_nat (length (cands p)))%Z) \/
   (exists (cur : profile) prev s1, ranked_profile cur /\ incl (cands cur) (cands p) /\
+     first_place_votes cur = inl (escores prev) /\
      (if boosted then brd_step cur prev s1 else rd_step cur prev s1) = inr e).
 Proof. exact (dictator_run_errors cand ceqb ceqb_spec). Qed.
 
